@@ -260,8 +260,11 @@ def c14(chk, thorough):
         'extend, sort) is analysed by symbolic extent abstract interpretation from ANY argument state satisfying the invariants '
         '(operands shorter/equal/longer, arbitrary index arguments): every subscript is in range (PROVED / REFUTED with a shape '
         'witness / UNDECIDED), nothing is used or freed after release, copies are deep, and the invariants hold again at every exit. '
-        'So any history of operations stays memory-safe. NOT decided: cell values after an operation (old cells preserved / new '
-        'cells zero), allocator failure, string contents.')
+        'So any history of operations stays memory-safe. (S.written) every cell below the counts at exit that lies in storage the '
+        'operation itself allocated (xmalloc: nothing defined; xrealloc: the old prefix defined) has been stored to on every path, '
+        'through direct stores, stores in loops generalised to index ranges, or setter calls whose write summary is derived from '
+        'the callee; REFUTED only with a concrete shape witness, UNDECIDED when a store pattern is not understood. '
+        'NOT decided: which value a cell receives (old value preserved / zero), allocator failure, string contents.')
     chk.assumptions = ['container invariants at entry: data holds >= row row pointers of >= col cells; vectors >= size cells; '
                        'tensor/list pointer arrays hold >= order/size valid objects; a null data pointer implies zero counts',
                        'distinct parameters do not alias the same container', 'LP64 (sizeof(double*) == sizeof(double))',
@@ -272,6 +275,7 @@ def c14(chk, thorough):
         chk.broke('only %d strict-mode functions found, floor 70' % chk.extra.get('strict_functions', 0))
     chk.floor('S.bounds', 250)
     chk.floor('S.post-invariant', 60)
+    chk.floor('S.written', 20)
 
 
 def c11(chk, thorough):
